@@ -9,17 +9,23 @@ OVERLAY = {"p2p/security/noise/zz_c02_verif_test.go": "harness/overlay/noise/c02
            "p2p/transport/tcpreuse/internal/sampledconn/zz_c02_verif_test.go": "harness/overlay/c02/sampled_verif_test.go",
            "p2p/security/tls/zz_c02_verif_test.go": "harness/overlay/c02/tls_verif_test.go",
            "p2p/muxer/yamux/zz_c02_verif_test.go": "harness/overlay/c02/yamux_verif_test.go",
+           "p2p/muxer/yamux/zz_c02_mux_verif_test.go": "harness/overlay/c02/mux_verif_test.go",
            "zz_c02_host_verif_test.go": "harness/overlay/c02/host_verif_test.go"}
 
 SUITES = [("p2p/security/noise", "TestVerifC02Noise$"), ("p2p/net/pnet", "TestVerifC02Pnet$"),
           ("p2p/transport/tcpreuse/internal/sampledconn", "TestVerifC02Sampled$"), ("p2p/security/tls", "TestVerifC02TLS$"),
-          ("p2p/muxer/yamux", "TestVerifC02Yamux$"), (".", "TestVerifC02Host$")]
+          ("p2p/muxer/yamux", "TestVerifC02Yamux$"), ("p2p/muxer/yamux", "TestVerifC02Mux$"), (".", "TestVerifC02Host$")]
 
 
 def consts(ctx):
     ctx.gen_consts_go("p2p/security/noise", ["MaxPlaintextLength", "MaxTransportMsgLength", "LengthPrefixLength"],
                       extra_imports=["golang.org/x/crypto/chacha20poly1305"],
                       exprs={"chacha20poly1305_Overhead": "chacha20poly1305.Overhead"})
+    # the yamux configuration go-libp2p really uses (p2p/muxer/yamux/transport.go: DefaultTransport)
+    ctx.gen_consts_go("p2p/muxer/yamux", [],
+                      exprs={"yamux_InitialStreamWindowSize": "DefaultTransport.Config().InitialStreamWindowSize",
+                             "yamux_MaxStreamWindowSize": "DefaultTransport.Config().MaxStreamWindowSize",
+                             "yamux_MaxMessageSize": "DefaultTransport.Config().MaxMessageSize"})
 
 
 def harness(ctx, casefile, tier, seed):
@@ -58,8 +64,47 @@ def warm(ctx):
 EK = {0: "none", 1: "alter", 2: "truncate/misalign", 3: "drop", 4: "duplicate", 5: "swap"}
 
 
+END7 = {0: "leave open", 1: "CloseWrite", 2: "Reset"}
+RES = {0: "data", 1: "EOF", 2: "error"}
+
+
+def parse7(t):
+    """kind 7: 7 cfg NS (sid nw wlen.. endact wok)*NS NE (tag a b c d e)*NE -> (cfg, streams, events)"""
+    t = [int(x) for x in t]
+    cfg, ns = t[1], t[2]
+    p = 3
+    streams = []
+    for _ in range(ns):
+        sid, nw = t[p], t[p + 1]
+        streams.append({"sid": sid, "writes": t[p + 2:p + 2 + nw], "end": t[p + 2 + nw], "wok": t[p + 3 + nw]})
+        p += 4 + nw
+    ne = t[p]
+    p += 1
+    events = [t[p + 6 * i:p + 6 * i + 6] for i in range(ne)]
+    return cfg, streams, events
+
+
+def describe7(t):
+    cfg, streams, ev = parse7(t)
+    fl = lambda f: "|".join(n for b, n in ((1, "SYN"), (2, "ACK"), (4, "FIN"), (8, "RST")) if f & b) or "-"
+    reads = [e for e in ev if e[0] == 4]
+    return {"stack": "yamux session with tapped frames (W writes, B reads; every W->B frame is handed over by the scheduler)",
+            "writer_is": "client (odd stream ids)" if cfg == 0 else "server (even stream ids)",
+            "streams": [{"sid": s["sid"], "writes": s["writes"], "total": sum(s["writes"]), "end": END7.get(s["end"], s["end"]), "writer_ok": s["wok"]} for s in streams],
+            "frames_W_to_B": sum(1 for e in ev if e[0] == 1), "data_frames_W_to_B": sum(1 for e in ev if e[0] == 1 and e[2] == 0),
+            "frames_B_to_W": sum(1 for e in ev if e[0] == 2),
+            "window_updates_B_to_W": [{"sid": e[1], "delta": e[4]} for e in ev if e[0] == 2 and e[2] == 1 and e[3] == 0][:12],
+            "flagged_frames": [{"dir": "W->B" if e[0] == 1 else "B->W", "sid": e[1], "type": {0: "Data", 1: "WindowUpdate"}.get(e[2], e[2]), "flags": fl(e[3]), "len": e[4]} for e in ev if e[0] in (1, 2) and e[3] != 0][:16],
+            "deliveries": sum(1 for e in ev if e[0] == 3),
+            "reader_half_closes": [{"sid": e[1], "error": e[2]} for e in ev if e[0] == 5],
+            "reads(first 12)": [{"sid": e[1], "buf": e[2], "res": RES.get(e[3], e[3]), "n": e[4], "ok": e[5]} for e in reads[:12]],
+            "reads_total": len(reads), "events": len(ev)}
+
+
 def describe(t):
     try:
+        if t[0] == 7:
+            return describe7(t)
         w = t[2]
         wl = t[3:3 + w]
         ek, ei, cl, nr = t[3 + w:7 + w]
@@ -72,17 +117,37 @@ def describe(t):
 
 def nontrivial(line):
     t = line.split()
+    if t[0] == b"7":
+        try:
+            _, streams, _ = parse7(t)
+        except Exception:
+            return False
+        return len(streams) > 1 or any(sum(s["writes"]) > 65524 for s in streams)   # several streams or more than one Data frame
     w = int(t[2])
     tot = sum(int(x) for x in t[3:3 + w])
     return tot > 65519 or t[3 + w] != b"0" or t[0] != b"1"   # more than one frame, tampered, or another stack
 
 
 def key(tag, toks, d):
+    if toks[0] == 7:
+        try:
+            cfg, streams, _ = parse7(toks)
+            return "C02:%s:stack=7:cfg=%d:streams=%s" % (tag, cfg, [(s["writes"], s["end"]) for s in streams])
+        except Exception:
+            return "C02:%s:stack=7:malformed" % tag
     w = toks[2]
     return "C02:%s:stack=%d:writes=%s:edit=%s@%s" % (tag, toks[0], toks[3:3 + w], toks[3 + w], toks[4 + w])
 
 
 def what(tag, toks, d):
+    if toks[0] == 7:
+        try:
+            cfg, streams, ev = parse7(toks)
+            return "yamux session (writer is the %s): streams %s, %d tapped frames, %d reads: the frames / reader observations violate byte fidelity or flow control" % (
+                "client" if cfg == 0 else "server", ", ".join("%d: writes %s then %s" % (s["sid"], s["writes"], END7.get(s["end"], s["end"])) for s in streams),
+                sum(1 for e in ev if e[0] in (1, 2)), sum(1 for e in ev if e[0] == 4))
+        except Exception:
+            return "yamux session (stack 7): malformed case line"
     dd = describe(toks)
     return "stack %s: writes %s, edit %s at frame %s: reader observations violate byte fidelity" % (dd.get("stack"), dd.get("writes"), dd.get("edit"), dd.get("frame"))
 
@@ -108,6 +173,10 @@ if __name__ == "__main__":
              "first Write timing out before the nonce is sent and retried), tcpreuse sampled connections read through Read, io.Copy, both, and io.Copy interrupted by a read deadline "
              "after a 1-2 byte Read, yamux streams whose reader's deadline expired while more than half a window was buffered (bytes returned together with a timeout count), "
              "1-5 concurrent yamux streams per connection in both directions with half-close followed by further reads/writes, and host-to-host streams (TCP + Noise or TLS + yamux). "
-             "Non-trivial = more than one Noise frame, tampered, or a non-Noise stack.",
+             "Tapped yamux sessions (stack 7): /repo's yamux transport, 1-4 streams per session in both client/server roles, over an in-memory connection whose tap parses every frame; "
+             "each writer-to-reader frame is held in a queue and handed to the reader one at a time by the harness, which waits until the receive loop is blocked again on an empty connection, "
+             "interleaved at random with the reader's Reads (buffers 1..300000), its own half-close, and the writer's FIN/RST; write sizes sit on the frame (65524) and window (262144) boundaries so that writers stall on the window. "
+             "The whole frame log (both directions, with payload-matches-written-stream bits) and every Read result go into the case line. "
+             "Non-trivial = more than one Noise frame, tampered, or a non-Noise stack (stack 7: more than one stream or more than one Data frame).",
         describe=describe, key=key, what=what, crosscheck=15,
     ))
